@@ -271,6 +271,20 @@ class CaseGen:
                 r = rng.random()
                 if r < cfg.get("obj_frac", 0.1):
                     x = [2, wa if rng.random() < 0.9 else [6, [1, 0], 0, TWO53, 0, 0, 0, [], 0]]
+                    if x[1][0] != 6 and rng.random() < 0.45:
+                        # an Action object need not be one the scenario lists: another required access on the
+                        # pivot, another probability (scans included), another cost
+                        wa = list(wa)
+                        y_ = rng.random()
+                        if y_ < 0.45:
+                            wa[4] = 2 if wa[4] == 1 else 1
+                        elif y_ < 0.8:
+                            wa[3] = rng.choice([TWO53 // 2, TWO53 // 4, 0, TWO53])
+                        else:
+                            wa[2] = wa[2] + 64
+                        # (granted access stays USER / ROOT: an Exploit object built with the constructor's default
+                        # access=0 is outside every property's domain -- the implementation itself lowers access for it)
+                        x = [2, wa]
                 elif modes[1]:
                     x = [0, ai]
                 else:
@@ -284,6 +298,8 @@ class CaseGen:
                 # mostly about a recently produced state (the end of a branch), else any state handed out so far
                 n_ = len(runner.pool)
                 op = [3, rng.randrange(max(0, n_ - 3), n_) if rng.random() < 0.6 else rng.randrange(n_)]
+                if rng.random() < 0.25:
+                    op.append(1)       # ... after rendering that state, the last observation and an action
             elif kind == "init":
                 op = [5]
             else:
@@ -315,7 +331,7 @@ class CaseGen:
         errs = getattr(runner, "last_error", None)
         self.stats["scenario:" + ("random" if name == "random" else "named")] += 1
         self.stats[f"hosts:{len(sd['hosts'])}"] += 1
-        return dict(name=name, sd=sd, modes=modes, ops=ops, cmd=[0, wire, modes, ops], impl=outs, errs=errs, impl_init=runner.init_wire,
+        return dict(name=name, sd=sd, modes=modes, ops=ops, cmd=[0, wire, modes, model_ops(ops)], impl=outs, errs=errs, impl_init=runner.init_wire,
                     arg_style=cfg.get("arg_style", "plain"))
 
     def note(self, op, out, flat):
@@ -341,6 +357,12 @@ class CaseGen:
             st["outcome:" + outcome] += 1
             if out[1][5] == 1:
                 st["draw_used"] += 1
+
+
+def model_ops(ops):
+    """the operations as the model sees them: a goal query that is preceded by render calls ([3, i, 1]) is, for
+    the model, the plain goal query (rendering is documented to change nothing)"""
+    return [[3, op[1]] if op[0] == 3 else op for op in ops]
 
 
 def has_bad(x):
